@@ -67,6 +67,20 @@ def P : Spec.Push.Params := { lower := lowerRef, isUserId := isUserIdRef }
 
 def tf (b : Bool) : Char := if b then 't' else 'f'
 
+/-- Word mode is observed twice: `event_match` on `content.body` with the text as pattern (glob), and
+`contains_display_name` with the text as display name (literal). `t`/`f`: both agree; `e`: only the
+event match holds; `d`: only the display name is contained. -/
+def pairLetter (em dn : Bool) : Char :=
+  match em, dn with
+  | true, true => 't'
+  | false, false => 'f'
+  | true, false => 'e'
+  | false, true => 'd'
+
+def wordLetter : Res → Res → Option Char
+  | .ok a, .ok b => some (pairLetter a b)
+  | _, _ => none
+
 def resLetter : Res → Option Char
   | .ok b => some (tf b)
   | .error _ => none
@@ -285,11 +299,12 @@ def handle (toks : List String) : String :=
       | "c12.glob" => match resLetter (matchesPattern E s p false) with
         | some c => String.singleton c
         | none => "panic"
-      | "c12.word" => match resLetter (matchesPattern E s p true) with
+      | "c12.word" => match wordLetter (matchesPattern E s p true) (containsWord E s p) with
         | some c => String.singleton c
         | none => "panic"
       | "c12.spec.glob" => String.singleton (tf (Spec.Glob.valueDecide lowerRef p s))
-      | "c12.spec.word" => String.singleton (tf (Spec.Glob.wordMatchDecide lowerRef p s))
+      | "c12.spec.word" =>
+        String.singleton (pairLetter (Spec.Glob.wordMatchDecide lowerRef p s) (Spec.Glob.containsWordDecide lowerRef p s))
       | _ => "bad-op"
     | _, _ => "bad-op"
   | [op, p, al, n] =>
@@ -300,9 +315,10 @@ def handle (toks : List String) : String :=
         let ts := textsUpTo al n
         match op with
         | "c12.xglob" => batch (fun s => resLetter (matchesPattern E s p false)) ts
-        | "c12.xword" => batch (fun s => resLetter (matchesPattern E s p true)) ts
+        | "c12.xword" => batch (fun s => wordLetter (matchesPattern E s p true) (containsWord E s p)) ts
         | "c12.spec.xglob" => batch (fun s => some (tf (Spec.Glob.valueDecide lowerRef p s))) ts
-        | "c12.spec.xword" => batch (fun s => some (tf (Spec.Glob.wordMatchDecide lowerRef p s))) ts
+        | "c12.spec.xword" => batch (fun s => some
+            (pairLetter (Spec.Glob.wordMatchDecide lowerRef p s) (Spec.Glob.containsWordDecide lowerRef p s))) ts
         | _ => "bad-op"
     | _, _, _ => "bad-op"
   | "c12.match" :: rest =>
